@@ -408,7 +408,7 @@ fn main() {
     );
     let mut cases: Vec<NCase> = Vec::new();
     let st = [1isize, 2, -1, -2];
-    for shape in [vec![2usize, 2], vec![2, 3], vec![2, 2, 2]] {
+    for shape in [vec![1usize, 1], vec![1, 3], vec![3, 1], vec![2, 2], vec![2, 3], vec![2, 2, 2]] {
         let d = shape.len();
         let ls = all_layouts(d, &st);
         for (i, lp) in ls.iter().enumerate() {
